@@ -278,6 +278,31 @@ func misSized(rt *rapid.T) []byte {
 	return b
 }
 
+// embeddedOnly: a small directory whose entries all fit their slots (the pending list stays empty or holds one tag),
+// whole or cut right before / inside the next-IFD pointer: what the reader does there must not depend on
+// tags an earlier decode left behind in the pooled buffer.
+func embeddedOnly(rt *rapid.T) []byte {
+	n := rapid.IntRange(1, 4).Draw(rt, "n")
+	b := []byte("II*\x00\x08\x00\x00\x00")
+	b = append(b, byte(n), 0)
+	ids := []uint16{0x0112, 0x0100, 0x0101, 0x0128, 0x0103}
+	for i := 0; i < n; i++ {
+		id := ids[i%len(ids)]
+		b = append(b, byte(id), byte(id>>8), 3, 0, 1, 0, 0, 0, byte(rapid.IntRange(1, 8).Draw(rt, "v")), 0, 0, 0)
+	}
+	if rapid.Bool().Draw(rt, "onePending") { // one out-of-line value after the table
+		off := uint32(len(b) + 12 + 4)
+		b[8]++
+		b = append(b, 0x31, 0x01, 2, 0, 8, 0, 0, 0, byte(off), byte(off>>8), 0, 0)
+		b = append(b, 0, 0, 0, 0)
+		b = append(b, "abcdefg\x00"...)
+		return b[:len(b)-rapid.SampledFrom([]int{0, 0, 8, 9, 10, 12}).Draw(rt, "cut1")]
+	}
+	b = append(b, 0, 0, 0, 0)
+	b = append(b, make([]byte, 40)...)
+	return b[:len(b)-rapid.SampledFrom([]int{0, 0, 40, 41, 42, 43, 44}).Draw(rt, "cut")]
+}
+
 func zoneFile(rt *rapid.T) []byte {
 	// the same local time with different spellings of the zone offset
 	r := gen.GenRecord(rt, gen.Options{NoGPS: true, PlainStrings: true})
@@ -303,7 +328,9 @@ func genCase(rt *rapid.T) Case {
 	for i := 0; i < n; i++ {
 		var data []byte
 		kind := ""
-		switch rapid.IntRange(0, 7).Draw(rt, "inputclass") {
+		switch rapid.IntRange(0, 8).Draw(rt, "inputclass") {
+		case 8:
+			data, kind = embeddedOnly(rt), "tiff"
 		case 0:
 			data, kind = misSized(rt), "tiff"
 		case 1:
@@ -398,7 +425,7 @@ func init() { pbt.Register(chk) }
 
 func TestProp(t *testing.T) {
 	defer rec.MustWrite()
-	rec.Rule("histories of 4-30 steps over one process: decode(entry, input) with every entry point over a per-history pool of 3-8 inputs (well-formed files of every container, truncated and hostile-edited ones, TIFFs whose out-of-line fields are given counts that fit the 4-byte slot, TIFFs whose zone-offset strings are respelled: +00:00 / -00:00 / same-hour variants), " +
+	rec.Rule("histories of 4-30 steps over one process: decode(entry, input) with every entry point over a per-history pool of 3-8 inputs (well-formed files of every container, truncated and hostile-edited ones, TIFFs whose out-of-line fields are given counts that fit the 4-byte slot, TIFFs whose zone-offset strings are respelled: +00:00 / -00:00 / same-hour variants, tiny directories with an empty or one-entry pending list cut at the next-IFD pointer), " +
 		"hash(image, function) over right- and wrong-size images, poison (verification hook: the Exif buffer pool is refilled with buffers whose scratch area, 84-entry tag array, len and pos are hostile; the pixel pools with other data), gc. " +
 		"oracle: (i) every call's digest (value, error, panic) equals the digest of the same call on pristine state (fresh pools, empty zone cache), computed once per (entry, input); (ii) every returned value is kept and re-digested after each later step: it must not change. " +
 		"non-trivial = the history ran at least one decode on a pooled buffer (no new buffer allocated) and has >= 2 decodes with a poison step or >= 2 distinct inputs; distinct by history")
